@@ -2,6 +2,7 @@
 # usage: run_check.sh <ID> <quick|thorough>     (cwd-independent; imports operon_ai from /repo's working tree)
 HERE="$(cd "$(dirname "$0")" && pwd)"
 cd "$HERE" || exit 2
+. "$HERE/ensure_deps.sh"
 export PYTHONHASHSEED=0 PYTHONDONTWRITEBYTECODE=1 PYTHONIOENCODING=utf-8
 TIER="${2:-${VERIF_TIER:-quick}}"
 exec /venv/bin/python -m pbt run "$1" "$TIER"
